@@ -242,34 +242,8 @@ def _plays_parsed(played):
 
 def eval_text(nf, variant, env, D):
     """Text the writer produces for a move of this kind under concrete field values (case folding), or None."""
-    a = {("var", "self"): ("variant", MV + variant)}
-    a.update(env)
-    from .common import chess_evalcalls
-    ev = chess_evalcalls(None, {})
-    v = hir.fold(nf, a, D, None, ev)
-    # a field read that was reached through a `match self { .. => self.f }` now reads `<variant>.f`: the same field of the same
-    # value the assumptions are stated on
-    SELFV = ("variant", MV + variant)
-
-    def back(t):
-        if not isinstance(t, tuple) or isinstance(t, hir.PK):
-            return t
-        if t == SELFV:
-            return ("var", "self")
-        return tuple(back(x) if isinstance(x, tuple) else x for x in t)
-    for _ in range(2):
-        if isinstance(v, tuple) and v and v[0] == "str" and all(p_[0] in ("ch", "s") and p_[1][0] == "lit" for p_ in v[1:]):
-            break
-        v = hir.fold(back(v), env, D, None, ev)
-    if not (isinstance(v, tuple) and v and v[0] == "str"):
-        return None
-    out = ""
-    for p in v[1:]:
-        if p[0] in ("ch", "s") and p[1][0] == "lit" and isinstance(p[1][1], str):
-            out += p[1][1]
-        else:
-            return None
-    return out
+    from .common import eval_move_text
+    return eval_move_text(nf, variant, env, D)
 
 
 def coords_env(r1, c1, r2, c2):
